@@ -132,11 +132,12 @@ pub fn run(out: &mut Out, _tier: &str, _seed: u64) {
     }
     out.notes.insert("error_codes".into(), json!(codes_seen));
     // the permitted programs also run without faulting for the reachable states: one control program per container
-    for c in 1..=2usize {
-        let cont = if c == 1 { "HeapBytes" } else { "HeapByteArray<32>" };
+    for c in 1..=3usize {
+        let cont = if c == 1 { "HeapBytes" } else if c == 2 { "HeapByteArray<32>" } else { "HeapBytes (empty region)" };
         let resize = if c == 1 { "l.resize(64, 0); let _c = l.clone();" } else { "let _: &[u8; 32] = l.as_array();" };
         let ctor = if c == 1 { "HeapBytes" } else { "HeapByteArray::<32>" };
-        let src = format!("#![feature(allocator_api)]\n#![allow(unused)]\nuse dryoc::protected::*;\nuse dryoc::types::*;\nfn main() {{\n let mut l = {}::from_slice_into_locked(&[7u8; 32]).unwrap();\n l.as_mut_slice()[0] = 1; let _ = l[0]; {}\n let ro = l.mprotect_readonly().unwrap(); let _ = ro.as_slice()[0]; let _ = ro[1];\n let u = ro.munlock().unwrap(); let _c2 = u.clone();\n let na = u.mprotect_noaccess().unwrap();\n let rw = na.mprotect_readwrite().unwrap(); let mut rw = rw; rw.as_mut_slice()[2] = 9;\n let l2 = rw.mlock().unwrap(); let _ = l2.as_slice()[2];\n}}\n", ctor, resize);
+        // the resizable container at its smallest legal size: every permitted transition of an empty region runs, too
+        let src = if c == 3 { "#![feature(allocator_api)]\n#![allow(unused)]\nuse dryoc::protected::*;\nuse dryoc::types::*;\nfn main() {\n let l = HeapBytes::new_locked().unwrap(); assert_eq!(l.len(), 0);\n let ro = l.mprotect_readonly().unwrap(); let _c1 = ro.clone();\n let u = ro.munlock().unwrap(); let _c2 = u.clone();\n let na = u.mprotect_noaccess().unwrap();\n let ro2 = na.mprotect_readonly().unwrap();\n let rw = ro2.mprotect_readwrite().unwrap(); let mut rw = rw; rw.resize(8, 1); rw.as_mut_slice()[2] = 9; rw.resize(0, 0);\n let l2 = rw.mlock().unwrap(); assert_eq!(l2.len(), 0);\n let e = HeapBytes::from_slice_into_readonly_locked(b\"\").unwrap(); let _c3 = e.clone();\n let f = HeapBytes::new_readonly_locked().unwrap(); let g = f.mprotect_readwrite().unwrap(); let _h = g.mprotect_readonly().unwrap();\n}\n".to_string() } else { format!("#![feature(allocator_api)]\n#![allow(unused)]\nuse dryoc::protected::*;\nuse dryoc::types::*;\nfn main() {{\n let mut l = {}::from_slice_into_locked(&[7u8; 32]).unwrap();\n l.as_mut_slice()[0] = 1; let _ = l[0]; {}\n let ro = l.mprotect_readonly().unwrap(); let _ = ro.as_slice()[0]; let _ = ro[1];\n let u = ro.munlock().unwrap(); let _c2 = u.clone();\n let na = u.mprotect_noaccess().unwrap();\n let rw = na.mprotect_readwrite().unwrap(); let mut rw = rw; rw.as_mut_slice()[2] = 9;\n let l2 = rw.mlock().unwrap(); let _ = l2.as_slice()[2];\n}}\n", ctor, resize) };
         let path = format!("{}/control_{}.rs", dir, c);
         std::fs::write(&path, &src).unwrap();
         let bin = format!("{}/control_{}", dir, c);
